@@ -33,6 +33,15 @@ def ints(s):
 
 def generate(tier, rng):
     yield {'kind': 'singles', 'inputs': [bytes([b]).hex() for b in range(256)]}
+    # "the Unicode text stored in .p8 files": the same conversion observed THROUGH the .p8 codec - one comment line per
+    # byte string, written by the .p8 writer, the stored text taken from the file, the bytes from reading it back
+    lines = []
+    for b in range(256):
+        if b == 10:
+            continue
+        lines += [bytes([b]), bytes([b, 120]), bytes([120, b]), bytes([b, b])]
+    for i in range(0, len(lines), 255):
+        yield {'kind': 'p8file', 'inputs': [x.hex() for x in lines[i:i + 255]]}
     for a in range(256):
         yield {'kind': 'pairs', 'inputs': [bytes([a, b]).hex() for b in range(256)]}
     n = 2000 if tier == 'quick' else 50000
@@ -82,6 +91,46 @@ def corpus_cases():
     return []
 
 
+def _through_p8_file(bodies):
+    """rows shaped like those of the function-level cases: bs = the line `--` + body as the cart holds it, text = what
+    the written .p8 file stores for that line, back = the bytes of that line after reading the file back"""
+    import io
+    from pico8.game.game import Game
+    from pico8.game.formatter.p8 import P8Formatter
+    from pico8.lua.lua import Lua
+    src_lines = [b'--' + b for b in bodies]
+    rows = [{'bs': lib.hx(l)} for l in src_lines]
+    try:
+        g = Game.make_empty_game(version=8)
+        g.lua = Lua.from_lines([l + b'\n' for l in src_lines], version=8)
+        f = io.BytesIO()
+        P8Formatter.to_file(g, f)
+        data = f.getvalue()
+        a = data.index(b'__lua__\n') + 8
+        z = data.index(b'\n__gfx__', a)
+        stored = data[a:z].split(b'\n')
+        back = b''.join(P8Formatter.from_file(io.BytesIO(data)).lua.to_lines()).split(b'\n')
+    except Exception as e:  # noqa
+        for r in rows:
+            r['text'] = 'ERR ' + lib.exc_name(e)
+        return rows
+    if back and back[-1] == b'':
+        back = back[:-1]
+    for i, r in enumerate(rows):
+        if i >= len(stored):
+            r['text'] = 'ERR line-missing-in-file'
+            continue
+        try:
+            t = stored[i].decode('utf-8')
+        except Exception as e:  # noqa
+            r['text'] = 'ERR stored-text-not-utf8'
+            continue
+        r['text'] = ints(t)
+        r['enc'] = lib.hx(stored[i])
+        r['back'] = 'OK ' + lib.hx(back[i]) if i < len(back) else 'ERR line-missing-after-reading'
+    return rows
+
+
 def run_impl(case):
     from pico8.lua import lua
     out = []
@@ -93,6 +142,8 @@ def run_impl(case):
                 r = 'ERR ' + lib.exc_name(e)
             out.append({'text': ints(t), 'back': r})
         return {'rows': out}
+    if case['kind'] == 'p8file':
+        return {'rows': _through_p8_file([bytes.fromhex(h) for h in case['inputs']])}
     for h in case['inputs']:
         bs = bytes.fromhex(h)
         row = {'bs': lib.hx(bs)}
